@@ -6,6 +6,7 @@ CONSTANTS
     SrvKinds = {}
     Faults = {"eof"}
     ClientClose = FALSE
+    Compliant = FALSE
     Bug = {"keepsender"}
 SPECIFICATION Spec
 INVARIANTS Pairing NothingAfterClose Released NoStuckCaller SlotsLive OneTerminal
